@@ -84,6 +84,7 @@ func (f *SetExclusiveOr) Call(s *slip.Scope, args slip.List, depth int) slip.Obj
 		copy(keys, list2)
 	}
 	var xor slip.List
+	matched := make([]bool, len(keys))
 	for _, v1 := range list1 {
 		k1 := v1
 		if kc != nil {
@@ -91,17 +92,14 @@ func (f *SetExclusiveOr) Call(s *slip.Scope, args slip.List, depth int) slip.Obj
 		}
 		var has bool
 		for i, k2 := range keys {
-			if k2 == slip.Unbound {
-				continue
-			}
 			if tc != nil {
 				if tc.Call(s, slip.List{k1, k2}, depth) != nil {
 					has = true
-					keys[i] = slip.Unbound
+					matched[i] = true
 				}
 			} else if slip.ObjectEqual(k1, k2) {
 				has = true
-				keys[i] = slip.Unbound
+				matched[i] = true
 			}
 			// Don't stop if found. There may be others.
 		}
@@ -110,11 +108,10 @@ func (f *SetExclusiveOr) Call(s *slip.Scope, args slip.List, depth int) slip.Obj
 		}
 	}
 	// Add all the values in list2 that were not matched to values in list1.
-	for i, k2 := range keys {
-		if k2 == slip.Unbound {
-			continue
+	for i, m := range matched {
+		if !m {
+			xor = append(xor, list2[i])
 		}
-		xor = append(xor, list2[i])
 	}
 	return xor
 }
